@@ -13,6 +13,10 @@ def run(chk):
     # the design of the pinned tree (arm after write) must still show the counter-example the forced schedule replays
     p = vlib.run_tlc("MC_RegionClient", "MC_RegionClient_c18_pinned.cfg", timeout=600)
     chk.cov["model_counterexample_for_arm_after_write"] = str(p["violated"])
+    na = vlib.run_tlc("MC_RegionClient", "MC_RegionClient_c18_nonatomicdown.cfg", timeout=600)
+    if na["violated"] != "BusyArmed":
+        raise vlib.MachineryError("MC_RegionClient_c18_nonatomicdown: expected the BusyArmed counter-example, got %r" % (na["violated"],))
+    chk.cov["model_counterexample_for_clearing_outside_the_mutex"] = str(na["violated"])
     wd, res, t = rcshared.run_driver(chk, "TestVerifC18", "c18_result.json", dict(VERIF_N="400" if thorough else "60"))
     if res is None:
         chk.violation("client-panic", "the region client panicked during a C18 scenario:\n" + t["out"][-1500:], dict(kind="panic", out=t["out"][-4000:]))
